@@ -193,6 +193,12 @@ def rule_feas_cost(repo, tier):
         whole = inline_straight(f.node)
         post = [st for st in f.node.body if isinstance(st, ast.Assign) and any(isinstance(t, ast.Name) and 'cost' in t.id for t in st.targets)
                 and not (isinstance(st.value, ast.Call) and dotted(st.value.func) in ('torch.zeros', 'torch.zeros_like', 'torch.empty'))]
+        late = [st for st in f.node.body if isinstance(st, ast.AugAssign) and isinstance(st.target, ast.Name) and 'cost' in st.target.id]
+        if late and not post:
+            res.inst({'function': f.fq, 'clause': 'stage cost accumulated on every step of the roll-out', 'ok': False})
+            res.add(Finding('C14.COST', f, '`%s` stands after the roll-out loop: only the stage cost of the LAST step is added, the reported cost is not the sum over the '
+                            'horizon' % src(late[0])[:70], node=late[0], construct='cost accumulated outside the loop'))
+            return res
         if not post:
             raise AnalysisError('C14.COST: cost accumulation not found in the roll-out loop')
         for st in post:
